@@ -602,6 +602,22 @@ func vrtRouteHandler(h http.Handler, path string) string {
 	return vrtFuncName(m.Handler)
 }
 
+// vrtRoutePaths: the literal paths the router serves.
+func vrtRoutePaths(h http.Handler) []string {
+	r, ok := h.(*mux.Router)
+	if !ok {
+		return nil
+	}
+	var out []string
+	r.Walk(func(route *mux.Route, _ *mux.Router, _ []*mux.Route) error {
+		if t, err := route.GetPathTemplate(); err == nil && !strings.Contains(t, "{") {
+			out = append(out, t)
+		}
+		return nil
+	})
+	return out
+}
+
 // vrtRoutePathOf: the path under which the handler whose name contains name is registered.
 func vrtRoutePathOf(h http.Handler, name string) (string, bool) {
 	r, ok := h.(*mux.Router)
